@@ -524,6 +524,9 @@ Lemma block_last c n szx : 0 <= szx -> block_more c n szx = false -> block_paylo
 Proof. intros H Hm. rewrite block_more_spec in Hm by assumption. rewrite block_payload_spec by assumption.
   unfold bto. apply firstn_all2. unfold blen in Hm. lia. Qed.
 
+Lemma read_at_spec (c : list Z) s k : read_at c s k = bto (bfrom c s) k.
+Proof. unfold read_at. destruct (blen c <=? s) eqn:E; [|reflexivity]. unfold bfrom, bto, blen in *.
+  rewrite skipn_all2 by lia. symmetry. apply firstn_nil. Qed.
 Lemma out_obs_stat p st : exists st1, out (obs_stat p) st = (st1, inr tt) /\ st_fs st1 = st_fs st.
 Proof. unfold out, obs_stat. destruct (obs_find (st_obs st) p) as [[|]|]; eexists; split; reflexivity. Qed.
 Lemma out_open_read p st : out (open_read p) st = (st, inr (fs_read (st_fs st) p)). Proof. reflexivity. Qed.
@@ -559,7 +562,7 @@ Section Blockwise.
       rewrite out_bind. unfold render_get_file. cbn [opt_uri_path with_block2 opt_block2]. rewrite Hlast.
       rewrite out_bind, out_open_read. unfold fs_read. rewrite Hst. cbv beta iota.
       rewrite out_bind. destruct (out_obs_stat (load_parts p) st) as [st1 [Ho Hs]]. rewrite Ho. cbv beta iota.
-      rewrite out_ret, out_ret. exists st1. split; [|exact Hs]. unfold block_response, block_payload, block_more. cbn [rbody rcode nonempty_list orb]. reflexivity. }
+      rewrite out_ret, out_ret. exists st1. split; [|exact Hs]. unfold block_response, block_payload, block_more. rewrite !read_at_spec. cbn [rbody rcode nonempty_list orb]. reflexivity. }
     unfold serve. unfold out in H1. destruct (render_to_pipe self (with_block2 req (Some (n, false, szx))) st) as [[st' effs] r].
     cbn [fst snd] in H1. injection H1 as -> ->. exists st1, effs. split; [reflexivity|exact H2]. Qed.
 
